@@ -78,6 +78,12 @@ theorem fetch_some (b : Nat) : ∀ (ts : List (Table α)) (r : α) (rest : List 
       subst h1
       exact ⟨cur, ts, by simp only [fetch, hp], h2⟩
 
+/-- What the hand-written skeleton needs to know about the *generated* `__next__` expressions
+(proved of the current source in `Props/C11.lean`: `next_guard_spec`, `next_bookkeeping_spec`). -/
+structure NextFacts : Prop where
+  stop : ∀ p m : Nat, Gen.ArrowExpr.nextStopTest (p : Int) (m : Int) ↔ m ≤ p
+  bump : ∀ p : Nat, bump p = p + 1
+
 theorem remaining_eq (s : It α) : s.remaining = s.current ++ pending s.batch s.tables := rfl
 
 theorem next_full (s : It α) (h : s.full = true) : next s = (none, s) := by
@@ -89,7 +95,8 @@ theorem next_empty (s : It α) (hf : s.full = false) (h : s.remaining = []) : (n
   have h2 : pending s.batch s.tables = [] := (List.append_eq_nil_iff.mp h).2
   simp [next, hf, h1, fetch_none _ _ h2]
 
-theorem next_some (s : It α) (hf : s.full = false) (r : α) (rest : List α) (h : s.remaining = r :: rest) :
+theorem next_some (N : NextFacts) (s : It α) (hf : s.full = false) (r : α) (rest : List α)
+    (h : s.remaining = r :: rest) :
     ∃ s', next s = (some r, s') ∧ s'.remaining = rest ∧ s'.processed = s.processed + 1 ∧
       s'.maxSize = s.maxSize ∧ s'.batch = s.batch := by
   rw [remaining_eq] at h
@@ -98,13 +105,13 @@ theorem next_some (s : It α) (hf : s.full = false) (r : α) (rest : List α) (h
     rw [hc, List.cons_append] at h
     injection h with h1 h2
     subst h1
-    refine ⟨{ s with current := cur, processed := s.processed + 1 }, ?_, ?_, rfl, rfl, rfl⟩
+    refine ⟨{ s with current := cur, processed := bump s.processed }, ?_, ?_, N.bump _, rfl, rfl⟩
     · simp [next, hf, hc]
     · simpa [It.remaining, pending] using h2
   | nil =>
     rw [hc, List.nil_append] at h
     obtain ⟨cur, ts', h1, h2⟩ := fetch_some _ _ r rest h
-    refine ⟨{ s with tables := ts', current := cur, processed := s.processed + 1 }, ?_, ?_, rfl, rfl, rfl⟩
+    refine ⟨{ s with tables := ts', current := cur, processed := bump s.processed }, ?_, ?_, N.bump _, rfl, rfl⟩
     · simp [next, hf, hc, h1]
     · simpa [It.remaining, pending] using h2
 
@@ -114,16 +121,19 @@ def It.room (s : It α) : Nat :=
   | none => s.remaining.length
   | some m => m - s.processed
 
-theorem full_iff_room (s : It α) (hne : s.remaining ≠ []) : s.full = true ↔ s.room = 0 := by
+theorem full_iff_room (N : NextFacts) (s : It α) (hne : s.remaining ≠ []) : s.full = true ↔ s.room = 0 := by
   unfold It.full It.room
   cases s.maxSize with
   | none =>
     simp only [Bool.false_eq_true, false_iff]
     intro h
     exact hne (List.eq_nil_of_length_eq_zero h)
-  | some m => simp only [decide_eq_true_eq]; omega
+  | some m =>
+    simp only [decide_eq_true_eq]
+    rw [N.stop]
+    omega
 
-theorem drainWith_next : ∀ (f : Nat) (s : It α), s.remaining.length < f →
+theorem drainWith_next (N : NextFacts) : ∀ (f : Nat) (s : It α), s.remaining.length < f →
     drainWith next f s = s.remaining.take s.room := by
   intro f
   induction f with
@@ -143,13 +153,13 @@ theorem drainWith_next : ∀ (f : Nat) (s : It α), s.remaining.length < f →
       have hne : s.remaining ≠ [] := by rw [hr]; exact List.cons_ne_nil _ _
       cases hfull : s.full with
       | true =>
-        have h0 := (full_iff_room s hne).mp hfull
+        have h0 := (full_iff_room N s hne).mp hfull
         simp only [drainWith, next_full s hfull, h0, List.take_zero]
       | false =>
-        obtain ⟨s', h1, h2, h3, h4, h5⟩ := next_some s hfull r rest hr
+        obtain ⟨s', h1, h2, h3, h4, h5⟩ := next_some N s hfull r rest hr
         have hroom : s.room = s'.room + 1 := by
           have hnz : s.room ≠ 0 := fun h0 => by
-            have := (full_iff_room s hne).mpr h0
+            have := (full_iff_room N s hne).mpr h0
             rw [hfull] at this; exact Bool.noConfusion this
           unfold It.room at *
           rw [h4, h2, h3]
@@ -162,8 +172,8 @@ theorem drainWith_next : ∀ (f : Nat) (s : It α), s.remaining.length < f →
         simp only [drainWith, h1]
         rw [ih s' hlen, hroom, h2, List.take_succ_cons]
 
-theorem drain_eq (s : It α) : drain s = s.remaining.take s.room :=
-  drainWith_next _ s (Nat.lt_succ_self _)
+theorem drain_eq (N : NextFacts) (s : It α) : drain s = s.remaining.take s.room :=
+  drainWith_next N _ s (Nat.lt_succ_self _)
 
 /-- every table still to come has at least one row -/
 def It.noEmptyTable (s : It α) : Prop := ∀ t ∈ s.tables, processTable s.batch t ≠ []
